@@ -82,14 +82,14 @@ Print Assumptions C01_exit2_only_errors.
 Theorem C01_composed_statuses : forall cfg a fl ins sres dirs disk l,
   config_rejected cfg a = false ->
   load_for_run fl disk = Some l ->
-  let ck := T.check_checker cfg a in
+  let ck := Threshold.Model.check_checker cfg a in
   let out := check_command cfg a fl ins sres dirs disk in
   forall f s, In f ins -> fi_scanned f = true -> fi_stats f = Some s ->
-    T.should_process ck (fi_ev f) (fi_mv f) (fi_ext f) = true ->
+    Threshold.Model.should_process ck (fi_ev f) (fi_mv f) (fi_ext f) = true ->
     exists r, In r (o_results out) /\ r_path r = fi_path f /\ r_kind r = Content /\
-      r_status r = adjust l (fi_path f) (conv (T.res_status (T.process_for_check ck (fi_mv f) s))) /\
-      r_code r = T.sloc (T.res_stats (T.process_for_check ck (fi_mv f) s)) /\
-      r_limit r = T.res_limit (T.process_for_check ck (fi_mv f) s).
+      r_status r = adjust l (fi_path f) (conv (Threshold.Model.res_status (Threshold.Model.process_for_check ck (fi_mv f) s))) /\
+      r_code r = Threshold.Model.sloc (Threshold.Model.res_stats (Threshold.Model.process_for_check ck (fi_mv f) s)) /\
+      r_limit r = Threshold.Model.res_limit (Threshold.Model.process_for_check ck (fi_mv f) s).
 Proof. exact composed_statuses. Qed.
 Print Assumptions C01_composed_statuses.
 
@@ -101,11 +101,11 @@ Print Assumptions C01_composed_config_error.
 
 Theorem C01_composed_nothing_else_reported : forall cfg a fl ins sres dirs disk l,
   config_rejected cfg a = false -> load_for_run fl disk = Some l ->
-  let ck := T.check_checker cfg a in
+  let ck := Threshold.Model.check_checker cfg a in
   forall r, In r (o_results (check_command cfg a fl ins sres dirs disk)) -> r_kind r = Content ->
     (forall s, In s sres -> r_kind s <> Content) ->
     exists f, In f ins /\ r_path r = fi_path f /\ fi_scanned f = true /\
-              T.should_process ck (fi_ev f) (fi_mv f) (fi_ext f) = true /\ fi_stats f <> None.
+              Threshold.Model.should_process ck (fi_ev f) (fi_mv f) (fi_ext f) = true /\ fi_stats f <> None.
 Proof. exact composed_unselected_silent. Qed.
 Print Assumptions C01_composed_nothing_else_reported.
 
